@@ -123,6 +123,28 @@ func baseName(fn *ssa.Function) string {
 	if o := fn.Origin(); o != nil {
 		n = o.String()
 	}
+	// strip type parameter lists: (*pkg.MapOf[K,V]).resize -> (*pkg.MapOf).resize
+	for {
+		i := strings.Index(n, "[")
+		if i < 0 {
+			break
+		}
+		depth, j := 0, i
+		for ; j < len(n); j++ {
+			if n[j] == '[' {
+				depth++
+			} else if n[j] == ']' {
+				depth--
+				if depth == 0 {
+					break
+				}
+			}
+		}
+		if j >= len(n) {
+			break
+		}
+		n = n[:i] + n[j+1:]
+	}
 	return n
 }
 
@@ -177,6 +199,19 @@ func (x *Exec) strArg(v Value) string {
 
 // Input creates (or re-uses, in thread mode) a named symbolic input.
 func (x *Exec) Input(f *frame, ins ssa.Instruction, name string, w int, g *Term) *Term {
+	if x.Concrete != nil {
+		// debugging mode: inputs fixed to a replay job's values
+		vs := x.Concrete.Inputs[name]
+		i := x.concPos[name]
+		x.concPos[name] = i + 1
+		v := uint64(0)
+		if i < len(vs) {
+			v = vs[i]
+		}
+		t := x.U.Const(w, v)
+		x.addStream(name, StreamEnt{G: g, T: t, Thr: -1})
+		return t
+	}
 	thr := -1
 	if x.thr != nil && f != nil {
 		thr = x.thr.ID
@@ -191,6 +226,15 @@ func (x *Exec) Input(f *frame, ins ssa.Instruction, name string, w int, g *Term)
 		return v
 	}
 	v := x.U.Var(fmt.Sprintf("%s#%d", name, len(x.Streams[name])), w)
+	if x.Pin != nil {
+		vs := x.Pin.Inputs[name]
+		i := x.concPos[name]
+		x.concPos[name] = i + 1
+		if i < len(vs) {
+			x.Assumes = append(x.Assumes, x.U.Eq(v, x.U.Const(w, vs[i])))
+			x.pinned[v] = vs[i]
+		}
+	}
 	x.addStream(name, StreamEnt{G: g, T: v, Thr: thr})
 	return v
 }
@@ -650,6 +694,9 @@ func (x *Exec) intrinsic(f *frame, ins ssa.Instruction, fn *ssa.Function, name s
 	case "VxPar":
 		x.par(f, ins, args[0].(SliceV), g)
 		return nil, true
+	case "VxParStalled":
+		x.parStalled(f, ins, args[0].(FuncV), args[1].(FuncV), g)
+		return nil, true
 	case "VxYield":
 		x.beginVis()
 		x.visible(g, "VxYield")
@@ -667,6 +714,33 @@ func (x *Exec) intrinsic(f *frame, ins ssa.Instruction, fn *ssa.Function, name s
 	case "VxNow":
 		return x.readClock(g), true
 	case "VxHashU64":
+		if x.Concrete != nil {
+			a, b := args[0].(*Term), args[1].(*Term)
+			if a.IsConst() && b.IsConst() {
+				if hv, ok := x.Concrete.Hash2[fmt.Sprintf("%d|%d", a.Val, b.Val)]; ok {
+					return u.Const(64, hv), true
+				}
+				return u.Const(64, a.Val*0x9E3779B97F4A7C15^b.Val), true
+			}
+		}
+		if x.Pin != nil {
+			a, b := args[0].(*Term), args[1].(*Term)
+			av, aok := x.pinned[a]
+			bv, bok := x.pinned[b]
+			if a.IsConst() {
+				av, aok = a.Val, true
+			}
+			if b.IsConst() {
+				bv, bok = b.Val, true
+			}
+			app := u.App("hash_2", 64, a, b)
+			if aok && bok {
+				if hv, ok := x.Pin.Hash2[fmt.Sprintf("%d|%d", av, bv)]; ok {
+					x.Assumes = append(x.Assumes, u.Eq(app, u.Const(64, hv)))
+				}
+			}
+			return app, true
+		}
 		return u.App("hash_2", 64, args[0].(*Term), args[1].(*Term)), true
 	case "VxHashStr":
 		s, seed := args[0].(*Term), args[1].(*Term)
